@@ -88,6 +88,7 @@ type sigBuilder struct {
 }
 
 type pSpec struct {
+	newDecl  bool
 	kind     Kind
 	loc      string
 	ptr      bool
@@ -131,7 +132,7 @@ func (b *sigBuilder) add(family string, ps []pSpec, r retSpec, feat map[string]s
 		if p.ptr {
 			t = "*" + t
 		}
-		params = append(params, scen.Param{Name: p.name, Type: t, In: p.loc, Alias: p.alias, Validate: p.validate})
+		params = append(params, scen.Param{Name: p.name, Type: t, In: p.loc, Alias: p.alias, Validate: p.validate, NewDecl: p.newDecl})
 		wire := p.name
 		if p.alias != "" {
 			wire = p.alias
@@ -300,6 +301,24 @@ func Signature(tier string) (Family, map[string]SigExpect) {
 			b.add("sig-grouped", ps, plainRet, map[string]string{"grouping": fmt.Sprint(g), "locations": locMode, "gi": fmt.Sprint(gi)})
 			b.group = false
 		}
+	}
+	// ... and groups followed by a separate declaration of the same type ("a, b, c string, d string")
+	for gi, split := range [][]int{{3, 1}, {1, 3}, {2, 2}, {3, 2}, {2, 1, 2}} {
+		var ps []pSpec
+		idx := 0
+		for _, size := range split {
+			for j := 0; j < size; j++ {
+				loc := "Query"
+				if idx%2 == 1 {
+					loc = "Header"
+				}
+				ps = append(ps, pSpec{kind: kStr, loc: loc, name: fmt.Sprintf("p%d", idx), newDecl: j == 0})
+				idx++
+			}
+		}
+		b.group = true
+		b.add("sig-grouped", ps, plainRet, map[string]string{"grouping": fmt.Sprint(split), "locations": "same-type-declarations", "gi": fmt.Sprint(gi)})
+		b.group = false
 	}
 	// (4) return shapes x @Response x @ErrorResponse
 	rets := []struct {
